@@ -280,3 +280,62 @@ def series_inv(a, order):
                 if k < len(a)) % P
         out[n] = (-s * out[0]) % P
     return out
+
+
+# ---- certificate for the Coq checker ADC.Models.RSPTCheck.rspt_ok ---------
+def rspt_cert_term(space, E, psi, order):
+    """Coq term `rspt_ok P N H0 H1 E Psi ref` for the RSPT solution computed
+    by Space.rspt (dense matrices over the determinant basis, values in
+    [0, P)); evaluated with vm_compute it must give true"""
+    dets = space.dets
+    pos = {d: i for i, d in enumerate(dets)}
+    n = len(dets)
+
+    def dense(H):
+        M = [[0] * n for _ in range(n)]
+        for j, d in enumerate(dets):
+            for d2, v in H(Vec({d: 1})).items():
+                M[pos[d2]][j] = v % P
+        return M
+
+    def zl(xs):
+        return "[" + "; ".join(str(x % P) for x in xs) + "]"
+
+    def zm(M):
+        return "[" + "; ".join(zl(r) for r in M) + "]"
+    H0, H1 = dense(space.H0), dense(space.H1)
+    Psi = [[psi[k].get(d, 0) for k in range(order + 1)] for d in dets]
+    return (f"rspt_ok {P} {order} {zm(H0)} {zm(H1)} {zl(E[:order + 1])} "
+            f"{zm(Psi)} {pos[space.ref]}")
+
+
+RSPT_HEADER = """From Coq Require Import ZArith List.
+From ADC Require Import Models.RSPTCheck.
+Import ListNotations.
+Open Scope Z_scope.
+"""
+
+
+def certify(ctx, prop, models, order, nocc=3, nvirt=3):
+    """certify the RSPT series of the given (variant, seed) models with the
+    Coq checker; returns True if all were accepted"""
+    cases = []
+    for variant, seed in models:
+        space = Space(nocc, nvirt, seed, canonical=(variant == "mp"))
+        E, psi = space.rspt(variant, order)
+        cases.append(rspt_cert_term(space, E, psi, order))
+    vals, errs = ctx.coq_eval("rspt", cases, header=RSPT_HEADER, shard=4)
+    ok_all = True
+    for (variant, seed), v in zip(models, vals):
+        ctx.case(key=("rspt-certificate", variant, seed), nontrivial=True,
+                 kind="rspt-certificate")
+        if not ctx.obligation(f"explicit {variant} RSPT series of model "
+                              f"{seed} accepted by rspt_ok (orders 0-"
+                              f"{order})", v == "true", str(v)):
+            ok_all = False
+            ctx.violation(f"{prop}:explicit-engine:{variant}",
+                          "the explicit determinant-space perturbation "
+                          "series is rejected by the verified checker "
+                          "rspt_ok (harness/detspace.py is wrong)",
+                          {"variant": variant, "seed": seed}, False)
+    return ok_all
